@@ -138,6 +138,8 @@ class Locker:
         self.ld = None
         self.last_renamed_in = False
         self.last_seen = None
+        self.saved_bytes = None
+        self.in_attempt = False
         self.err = None
 
 
@@ -281,6 +283,8 @@ class Sim:
             L.last_renamed_in = True
         if ev["k"] == "get_held":
             L.last_seen = r
+            if L.cmd == "peek":
+                L.saved_bytes = r
         if kindtag == "rename_out" and ev.get("to") == "broken":
             L.cmd_broke = True
         return r
@@ -293,6 +297,12 @@ class Sim:
             return
         n = parse_nonce(data)
         ev["victim"] = self.canon_bytes(data)
+        # the lock this break is about = what the breaker examined last (force_break re-reads held/info just
+        # before the rename; force_break_corrupt relies on the driver's earlier peek)
+        examined = L.saved_bytes if L.cmd == "breakcorrupt" else L.last_seen
+        if examined is not None and examined != data:
+            self.wrong = True
+            ev["wrong"] = True
         if n in self.nonces:
             o = self.nonces[n][0]
             if o < len(self.lockers):
@@ -327,7 +337,12 @@ class Sim:
                         if ld.is_held:
                             res = Err("Misuse")
                         else:
-                            ld.attempt_lock()
+                            L.in_attempt = True
+                            try:
+                                ld.attempt_lock()
+                            finally:
+                                if not self.aborting:
+                                    L.in_attempt = False
                             res = Tag("ok")
                     elif c == "unlock":
                         ld.unlock()
@@ -362,8 +377,6 @@ class Sim:
                     else:
                         raise ValueError(c)
                 except Exception as e:
-                    if isinstance(e, errors.LockBreakMismatch) and L.cmd_broke:
-                        self.wrong = True
                     res = Err(type(e).__name__)
                 if self.aborting:      # the run is over: an unfinished command has no result
                     return
@@ -454,6 +467,7 @@ def run_sched(inp):
                 sim.cv.wait()
     snaps, obsv, lives = [], [], []
     mutex_bad = None
+    failed_held = None
     try:
         for i, p in enumerate(inp["sched"]):
             sim.step(p)
@@ -464,6 +478,8 @@ def run_sched(inp):
             lives.append(sim.live)
             if mutex_bad is None:
                 mutex_bad = check_mutex(sim, i, s)
+            if failed_held is None:
+                failed_held = check_failed_held(sim, i, s)
     finally:
         with sim.cv:
             sim.aborting = True
@@ -484,6 +500,8 @@ def run_sched(inp):
         "events": sim.events,
         "max_observable": max([len(o) for o in obsv] or [0]),
         "mutex_bad": mutex_bad,
+        "failed_held": failed_held,
+        "final_is_held": [bool(L.ld.is_held) for L in sim.lockers],
         "steal_bad": sim.steal_bad,
         "final_held_nonce_owner": snaps[-1][0] if snaps else None,
     }
@@ -506,6 +524,28 @@ def check_mutex(sim, i, snap):
     if len(holders) > 1:
         return "after step %d lockers %r all hold the lock" % (i, [L.pid for L in holders])
     return None
+
+
+FAILED_HELD_MSG = "a failed acquisition left the lock held by the failing process"
+
+
+def check_failed_held(sim, i, snap):
+    """C27 on the implementation: held/info never names a locker whose attempt_lock is over and
+    that does not believe it holds the lock."""
+    try:
+        n = parse_nonce(sim.raw.get_bytes("lock/held/info"))
+    except Exception:
+        return None
+    if n not in sim.nonces:
+        return None
+    o = sim.nonces[n][0]
+    if o >= len(sim.lockers):
+        return None
+    V = sim.lockers[o]
+    if V.ld.is_held or V.in_attempt:
+        return None
+    return "%s: after step %d held/info carries the nonce of locker %d whose attempt_lock is over and whose is_held is False" % (
+        FAILED_HELD_MSG, i, o)
 
 
 def model_obs(full):
